@@ -9,10 +9,17 @@ import (
 // FileFingerprint stores a file's modification time and size.
 // It can be written to or read from disk as JSON. Older versions
 // may not have the CRC32 field, so it is optional in comparisons.
+//
+// SnapshotIndex and SnapshotTerm identify the newest snapshot in the snapshot
+// store at the time the fingerprint was taken, i.e. the snapshot whose content
+// the fingerprinted file holds. Fingerprints written by older versions do not
+// have them (zero), in which case they are ignored.
 type FileFingerprint struct {
-	ModTime time.Time `json:"mod_time"`
-	Size    int64     `json:"size"`
-	CRC32   uint32    `json:"crc32,omitempty"`
+	ModTime       time.Time `json:"mod_time"`
+	Size          int64     `json:"size"`
+	CRC32         uint32    `json:"crc32,omitempty"`
+	SnapshotIndex uint64    `json:"snapshot_index,omitempty"`
+	SnapshotTerm  uint64    `json:"snapshot_term,omitempty"`
 }
 
 // WriteToFile saves the fingerprint to a file and fsyncs it to disk.
